@@ -124,6 +124,9 @@ def chain(depth):
 SEP = ["$"]
 
 
+# rules of sibling properties that decide code on this property's own call path: nest_jar rewrites references through dukebox::remap (C07) with a BRemapper (C06)
+PREMISES = [("C07", ["R07.1", "R07.2", "R07.3"]), ("C06", ["R06.1", "R06.4"])]
+
 def run(F, R, tier):
     with open(SPEC) as f:
         spec = json.load(f)
